@@ -26,7 +26,7 @@ Section C15.
     concat (fst (fst (sanitize_rw I p {| src_data := s; src_eof := true |} w))) = Sanitize I p s.
   Proof.
     intros s w Hb Hw. destruct (entry_points_agree I p s Hb) as (H1 & _ & _ & H4).
-    rewrite (H4 w Hw), H1. reflexivity.
+    rewrite (H4 w Hw), H1. cbn [fst]. apply chunks_concat.
   Qed.
 
   Theorem C15_blank : forall s, is_blank s = true -> Sanitize I p s = s /\ SanitizeBytes I p s = s.
